@@ -27,10 +27,21 @@ def run(ctx, replay=None):
             s['min_points'], s['max_points'] = 5, 15          # defaults used by cross_validation._interpolate
             s['cv_n'] = rng.choice([None, None, max(3, len(s['coords']) // 2), len(s['coords']) - 1])
             s['cv_seed'] = rng.choice([0, 1, 42, 2 ** 31, 7])
+            nsmall = sum(1 for c_ in cases if c_.get('tags', {}).get('unit') == '1e-4')
+            if (rng.random() < 0.3 or nsmall < 2) and s['vkw'].get('fit_method') == 'manual' and not s.get('mkw'):
+                # the same field in a small unit: values * 1e-4, sill and nugget * 1e-8 (a tiny nugget is still a nugget)
+                s['values'] = [x * 1e-4 for x in s['values']]
+                s['vkw'] = dict(s['vkw'], fit_sill=s['vkw']['fit_sill'] * 1e-8, fit_nugget=max(s['vkw'].get('fit_nugget', 0.0), 0.5) * 1e-8)
+                s['tags'] = dict(s['tags'], unit='1e-4')
+            elif rng.random() < 0.35:
+                # observations recorded as whole numbers with an integer dtype
+                s['values'] = [float(round(x)) for x in s['values']]
+                s['values_dtype'] = rng.choice(['int64', 'int32'])
             cases.append(s)
         for s in cases:
             for k, v in s['tags'].items():
                 ctx.count(k, v)
+            ctx.count('values_dtype', str(s.get('values_dtype')))
             try:
                 V = kc.make_variogram(s)
                 N = len(V.coordinates)
